@@ -38,7 +38,7 @@ def sweeps(ctx, K):
             for v in ([gb[0], 0xCD] if quick else [gb[0], gb[-1], 0, 0xCD, 0xFF]):
                 ex.append([L("alloc", a, 3, sz=sz)] + [L("write", s=3, pos=i, val=v) for i in range(sz)] + [L("release", r, 3)])
     # C. allocating family/allocator object x releasing family/allocator object x type checking x guard state
-    variants = ["plain", "twin", "wrap"]
+    variants = ["plain", "twin", "wrap", "relabel"]
     combos = []
     for tc in (1, 0):
         for (a, _) in all_eps:
@@ -117,7 +117,7 @@ def random_exec(rng, n, K):
         elif r < 0.92:
             ex.append(L("typecheck", val=rng.choice([0, 1])))
         else:
-            f = rng.choice(["new", "newarr", "malloc"]); v = rng.choice(["plain", "twin", "wrap"])
+            f = rng.choice(["new", "newarr", "malloc"]); v = rng.choice(["plain", "twin", "wrap", "relabel"])
             ex.append(L("setalloc", f, var=v)); cur[f] = v
     return ex
 
@@ -159,7 +159,7 @@ def run(ctx):
     distinct = set()
     # ---- leg 2: behaviours generated by TLC from the specification, executed through the real entry points
     gens = [("bfs", dict(slots="0", small="1", vals="0", variants='"plain", "wrap"', eps='"new", "newarr", "malloc"', maxoff=1, D=3), None, None),
-            ("sim", dict(slots="0, 1, 2", small="0, 1, 5, 8", vals=", ".join(map(str, sorted(set(K["gb"] + [0, 205])))), variants='"plain", "twin", "wrap"',
+            ("sim", dict(slots="0, 1, 2", small="0, 1, 5, 8", vals=", ".join(map(str, sorted(set(K["gb"] + [0, 205])))), variants='"plain", "twin", "wrap", "relabel"',
                          eps='"new", "newdbg", "newnt", "newarr", "newarrdbg", "newarrnt", "malloc"', maxoff=2, D=14), 60 if quick else 600, 20)]
     for (lab, g, sim, depth) in gens:
         gcfg = ctx.write_cfg("Gen_LeakBlocks_c06_" + lab, lb.gen_cfg(K, big="NoBig", pairs="NoPairs", strlens="", strns="NoBig", faults='"none"', **g))
